@@ -54,6 +54,7 @@ class Conc:
         self.cplx, self.real, self.dask, self.chunks, self.extra = cplx, real, dask, chunks, tuple(extra)
         self.assign = False
         self.qdtype = None
+        self.leap = False
         self.npint = None
         self.name = name or "r=%g%s,ep=%s,cf=%g%s,%s" % (rate, runit, epoch and epoch.isot, cf, funit,
                                                           "dask" if dask else "np")
@@ -122,6 +123,20 @@ def unit_twins(cs, k=2):
             t.name = c.name + ",unit-twin(%s,%s,%s)" % (t.runit, t.funit, t.cbw[1])
             out.append(t)
     return out
+
+
+def leap_concs(cs):
+    """One concretisation stamped ten seconds before the leap second of 2016-12-31 (UTC, the default scale): the
+    UTC day is 86401 s long there, so any arithmetic on fractional days instead of elapsed seconds is off by
+    offset/86400.  Expected times for it are computed with astropy's own Time + TimeDelta (flag `leap`), never
+    with the day-fraction ledger."""
+    base = next((c for c in cs if c.runit in (u.Hz, u.kHz) and not c.dask), cs[0])
+    t = copy.copy(base)
+    t.epoch = Time("2016-12-31T23:59:50", format="isot", scale="utc", precision=9)
+    t.rate, t.runit = 1, u.Hz
+    t.leap = True
+    t.name = "r=1Hz,ep=2016-12-31T23:59:50(leap-second day),cf=%g%s,np" % (t.cf, t.funit)
+    return [t]
 
 
 def ident(n, nchan, extra):
